@@ -139,8 +139,69 @@ def lemmas():
     return out
 
 
+# ---- TestChi2.evaluate: chi2_test on every compared dataset with ITS mask, pvalue with ITS ndf, in order (trace contract)
+def eval_world(nd):
+    from pyvc.verify import World
+    w = World()
+    w.globals['LOGGER'] = SNamespace('LOGGER', dropped=True)
+    for cname in ('TestChi2', 'TestResultChi2', 'DS', 'Arr'):
+        w.class_models[cname] = type(cname, (ClassModel,), {'name': cname, 'fields': {}})(w)
+    w.globals['TestResultChi2'] = SClass('TestResultChi2')
+    w.construct_hooks['TestResultChi2'] = lambda I, args, kwargs: I.alloc('TestResultChi2', dict(zip(('test', 'chi2', 'pvalue'), args)))
+
+    def m_chi2_test(I, me, a, b, mask):
+        r = I.alloc('Arr', {'what': 'chi2'})
+        I.trace.append(('chi2_test', a, b, mask, r))
+        return r
+
+    def m_pvalue(I, me, c, ndf):
+        r = I.alloc('Arr', {'what': 'p'})
+        I.trace.append(('pvalue', c, ndf, r))
+        return r
+    w.class_models['TestChi2'].m_chi2_test = m_chi2_test
+    w.class_models['TestChi2'].m_pvalue = m_pvalue
+    return w
+
+
+def eval_setup(nd):
+    def setup(I, scope):
+        I.trace = []
+        I.dsref = I.alloc('DS', {})
+        I.dss = [I.alloc('DS', {}) for _ in range(nd)]
+        I.masks = [I.alloc('Arr', {'what': 'mask'}) for _ in range(nd)]
+        I.ndfs = [I.fresh(INT, f'ndf{k}') for k in range(nd)]
+        scope.set('self', I.alloc('TestChi2', {'dsref': I.dsref, 'datasets': list(I.dss), 'nonzero_bins': list(I.masks), 'ndf': list(I.ndfs)}))
+    return setup
+
+
+def c_evaluate(nd):
+    return Contract(CF, 'TestChi2.evaluate', params={}, signals={}, variant=f'{nd}-datasets')
+
+
+def eval_check(nd):
+    def check(I, scope, outcome):
+        L = f'{CF}::TestChi2.evaluate[{nd}-datasets]'
+        tr = I.trace
+        tests = [e for e in tr if e[0] == 'chi2_test']
+        pvals = [e for e in tr if e[0] == 'pvalue']
+        ok1 = outcome[0] == 'return' and len(tests) == nd and all({id(e[1]), id(e[2])} == {id(I.dsref), id(I.dss[k])} and e[3] is I.masks[k] for k, e in enumerate(tests))      # either order: chi2 is symmetric
+        I.path.oblige(f'{L}::post::C07-every-compared-dataset-is-tested-against-the-reference-with-its-own-mask-in-order', ok1, kind='post',
+                      meta={'expr': 'chi2_test(dsref, ds_k, nonzero_bins_k) for k = 0 .. n-1, nothing else'})
+        ok2 = ok1 and len(pvals) == nd and all(e[1] is tests[k][4] and e[2] is I.ndfs[k] for k, e in enumerate(pvals))
+        I.path.oblige(f'{L}::post::C07-the-p-value-of-each-dataset-comes-from-its-own-statistic-and-degrees-of-freedom', ok2, kind='post',
+                      meta={'expr': 'pvalue(chi2_k, ndf_k) for k = 0 .. n-1'})
+        res = outcome[1] if outcome[0] == 'return' else None
+        ok3 = ok2 and isinstance(res, SObj) and res.cls == 'TestResultChi2' and I.getfield(res, 'test') is scope.lookup('self')
+        if ok3:
+            cs, ps = I.getfield(res, 'chi2'), I.getfield(res, 'pvalue')
+            ok3 = isinstance(cs, list) and isinstance(ps, list) and len(cs) == nd and len(ps) == nd and all(cs[k] is tests[k][4] and ps[k] is pvals[k][3] for k in range(nd))
+        I.path.oblige(f'{L}::post::C07-the-result-holds-the-statistics-and-p-values-of-the-datasets-in-order', ok3, kind='post',
+                      meta={'expr': 'TestResultChi2(self, [chi2_0 ..], [p_0 ..])'})
+    return check
+
+
 def units(tier):
-    return ['dataset_sub', 'chi2_test', 'nonzero_bins', 'pvalue', 'oracles', 'bool', 'lemmas', 'native']
+    return ['dataset_sub', 'evaluate', 'chi2_test', 'nonzero_bins', 'pvalue', 'oracles', 'bool', 'lemmas', 'native']
 
 
 def _replay_native(name, inp):
@@ -169,6 +230,8 @@ def run_unit(unit, tier, seed, known):
             recs.append(r)
         return {'lemmas': recs}
     D = lambda res: prop.discharge(res, tier, ID, lambda m, r: {'note': 'see model text'}, _replay_native)      # noqa
+    if unit == 'evaluate':
+        return {'functions': [D(verify_function(eval_world(nd), c_evaluate(nd), setup=eval_setup(nd), extra_check=eval_check(nd))) for nd in (1, 2)]}
     if unit == 'chi2_test':
         return {'functions': [D(verify_function(_world(), c_chi2_test(m))) for m in (True, False)]}
     if unit == 'nonzero_bins':
